@@ -105,6 +105,7 @@ type Contract struct {
 	Props    []string
 	Trusted  string // non-empty: contract is assumed, reason
 	ReplayIn []ReplayInput
+	ReplayBd []*SExpr // extra constraints used only to obtain small counterexamples for replay
 	Dispatch map[string][]string // interface type name -> allowed dynamic types (proved at each invoke)
 }
 
@@ -135,7 +136,15 @@ type TypeInv struct {
 	Alts  []string
 }
 
+type FuncDecl struct {
+	Pkg    string
+	Name   string
+	Params []QVar
+	Sort   string
+}
+
 type SpecDB struct {
+	Funcs     map[string]*FuncDecl
 	Contracts map[string]*Contract // key: pkg + "::" + name
 	Preds     map[string]*PredDef  // key: name (global namespace; pkg kept for type resolution)
 	Ghosts    []*GhostField
@@ -145,7 +154,7 @@ type SpecDB struct {
 }
 
 func newSpecDB() *SpecDB {
-	return &SpecDB{Contracts: map[string]*Contract{}, Preds: map[string]*PredDef{}}
+	return &SpecDB{Contracts: map[string]*Contract{}, Preds: map[string]*PredDef{}, Funcs: map[string]*FuncDecl{}}
 }
 
 func (db *SpecDB) loadDir(root string, pattern string) error {
@@ -271,6 +280,28 @@ func (db *SpecDB) loadText(path, text, pkgHint string) error {
 			}
 			db.Preds[name] = &PredDef{Pkg: pkg, Name: name, Params: params, Body: body, Src: rest}
 			cur = nil
+		case "function":
+			// function name(a T, b U) sort      (uninterpreted)
+			lp := strings.Index(rest, "(")
+			if lp < 0 {
+				return fail(l.n, "bad function declaration")
+			}
+			rp := matchParen(rest, lp)
+			if rp < 0 {
+				return fail(l.n, "bad function params")
+			}
+			fd := &FuncDecl{Pkg: pkg, Name: strings.TrimSpace(rest[:lp]), Sort: strings.TrimSpace(rest[rp+1:])}
+			for _, p := range splitTop(rest[lp+1:rp], ',') {
+				p = strings.TrimSpace(p)
+				if p == "" {
+					continue
+				}
+				w, r := splitWord(p)
+				fd.Params = append(fd.Params, QVar{w, strings.TrimSpace(r)})
+			}
+			db.Funcs[fd.Name] = fd
+			db.Scan = append(db.Scan, fmt.Sprintf("uninterpreted function %s (%s:%d)", fd.Name, filepath.Base(path), l.n))
+			cur = nil
 		case "ghost":
 			// ghost field Type.name sort
 			w2, r2 := splitWord(rest)
@@ -310,8 +341,8 @@ func (db *SpecDB) loadText(path, text, pkgHint string) error {
 			switch word {
 			case "mode":
 				fs := strings.Fields(rest)
-				if len(fs) == 0 || (fs[0] != "bv" && fs[0] != "math") {
-					return fail(l.n, "mode bv|math")
+				if len(fs) == 0 || (fs[0] != "bv" && fs[0] != "math" && fs[0] != "wrap") {
+					return fail(l.n, "mode bv|math|wrap")
 				}
 				cur.Mode = fs[0]
 				if len(fs) > 1 && fs[1] == "nooverflow" {
@@ -395,6 +426,12 @@ func (db *SpecDB) loadText(path, text, pkgHint string) error {
 				cur.Opaque = true
 			case "replay":
 				cur.Replay = strings.TrimSpace(rest)
+			case "replay-bound":
+				e, err := parseSpecExpr(rest)
+				if err != nil {
+					return fail(l.n, "%v", err)
+				}
+				cur.ReplayBd = append(cur.ReplayBd, e)
 			case "replay-input":
 				i := strings.Index(rest, "=")
 				if i < 0 {
